@@ -26,6 +26,9 @@ CONFIGS = [
     dict(name="rehash-m3-to-sp", cfg=dict(nd=3, nlev=2, hashsize=16), hash="murmur3", rehash="spooky2"),
     dict(name="rehash-sp-to-m3", cfg=dict(nd=3, nlev=1, hashsize=16), hash="spooky2", rehash="murmur3"),
     dict(name="sp-16-p3-holes", cfg=dict(nd=5, nlev=3, hashsize=16), hash="spooky2", fragment=True),
+    # a data disk was retired (position hole) and a disk added later took the hole: the map records are no longer in
+    # position order (d1@0, d3@2, d4@1)
+    dict(name="sp-16-p2-maphole", cfg=dict(nd=3, nlev=2, hashsize=16), hash="spooky2", maphole=True),
 ]
 
 
@@ -93,6 +96,20 @@ def make_all():
                 scen.mutate(fs, rng, 6, hostile=0.1, ops=["delete", "create", "truncate"])
                 r = a.cmd("sync", "-E", "-Z", *extra)
                 assert r.rc == 0, r.err
+            if spec.get("maphole"):
+                fs.clear_disk(1)
+                r = a.cmd("sync", "-E")
+                assert r.rc == 0, r.err
+                a.drop_disk(1)
+                nd_ = a.add_disk()
+                fs.entries[nd_] = {}
+                A.populate(fs, rng, nfiles=6, hostile=0.1, disks=[nd_], links=False, dirs=False)
+                r = a.cmd("sync")
+                assert r.rc == 0, r.err
+                c_ = a.load_content()
+                order = [(m["name"], m["pos"]) for m in c_.maps]
+                assert [p_ for _n, p_ in order] != sorted(p_ for _n, p_ in order), order
+                spec = dict(spec, disk_names=list(a.disk_names), disks=list(a.disks), map_order=[[n_.decode(), p_] for n_, p_ in order])
             if spec.get("rehash"):
                 r = a.cmd("rehash", "--test-force-" + spec["rehash"])
                 assert r.rc == 0, r.err
@@ -143,12 +160,21 @@ def restore(name, tag="c16"):
             os.utime(p, ns=(mt, mt), follow_symlinks=False)
         except OSError:
             pass
-    a = A.Array(root, **cfg)
+    if man["spec"].get("disk_names"):
+        a = A.Array(root, disk_names=list(man["spec"]["disk_names"]), **dict(cfg, nd=len(man["spec"]["disk_names"])))
+        a.disks = list(man["spec"]["disks"])
+        a.write_conf()
+    else:
+        a = A.Array(root, **cfg)
     return a, man
 
 
 if __name__ == "__main__":
     if "partial" in sys.argv[1:]:
         make_partial()
+    elif "only" in sys.argv[1:]:
+        only = sys.argv[sys.argv.index("only") + 1:]
+        CONFIGS[:] = [c_ for c_ in CONFIGS if c_["name"] in only]
+        make_all()
     else:
         make_all()
